@@ -59,19 +59,10 @@ Section O15.
     && selection_ok (c_in c) (c_obs c) && parallel_ok c.
 End O15.
 
-(* open known findings, recognised on the input (tags keep their numbers; 1-4, 6-9 are repaired):
-     5     exclude patterns are ignored inside copytree (cloned jobs, left-only directories): the violation
-           disappears in the model with every proposed repair applied (cfg_fixed) and repairing fix_excl alone
-           changes the behaviour of the model on this input (SyncObs.active) *)
-Definition known_tag_C15 (c : case_sync) : N :=
-  if negb (holds_C15 (cs_frepr c) (cs_case c))
-     && holds_C15 (cs_frepr c) (model_case (cs_frepr c) cfg_fixed (c_in (cs_case c)))
-  then first_active (cs_frepr c) [5]%N (c_in (cs_case c))
-  else 0%N.
+(* no open known finding for C15: every defect found (tags 1-9) is repaired in /repo *)
 
 Definition case_C15 := case_sync.
 Definition mismatch_C15 (c : case_C15) : bool := mismatch_case c.
 Definition violation_C15 (c : case_C15) : bool := negb (holds_C15 (cs_frepr c) (cs_case c)).
 Definition mismatches_C15 (cs : list case_C15) : list N := indices_where mismatch_C15 cs.
 Definition violations_C15 (cs : list case_C15) : list N := indices_where violation_C15 cs.
-Definition known_C15 (cs : list case_C15) : list N := tagged known_tag_C15 cs.
